@@ -541,3 +541,9 @@ TWINS = [
          "        bounding_potential_warning(self.__class__.__name__, bounding_event_rate, event_rate)\n",
          "        bounding_potential_warning(self.__class__.__name__, bounding_event_rate, event_rate)\n        _ = event_rate\n"),
 ]
+
+# seventh round (C01_G): the inner-point grid stops one step short of the upper faces; twin: the same grid with a local step count
+MUTANTS.append(Edit("inner-point grid misses the upper x face", "jellyfysh/estimator/inner_point_estimator.py",
+                    "for ix in range(self._points_per_side + 1):", "for ix in range(self._points_per_side):", "R4.7"))
+TWINS.append(Edit("inner-point grid: index range written as 1 + n", "jellyfysh/estimator/inner_point_estimator.py",
+                  "for ix in range(self._points_per_side + 1):", "for ix in range(1 + self._points_per_side):"))
